@@ -227,6 +227,25 @@ std::optional<T> string_to_number(const std::string_view str)
     return {};
 }
 
+// `std::from_chars` accepts leading zeros, a C++ literal with a leading zero is
+// octal: `08` is ill-formed, `010` is 8
+inline std::string strip_leading_zeros(const std::string_view value)
+{
+    const auto is_negative = (!value.empty() && (value[0] == '-'));
+    auto digits = value.substr(is_negative ? 1 : 0);
+    const auto first_non_zero = digits.find_first_not_of('0');
+    if(first_non_zero == std::string_view::npos)
+    {
+        digits = digits.empty() ? digits : digits.substr(digits.size() - 1);
+    }
+    else
+    {
+        digits = digits.substr(first_non_zero);
+    }
+
+    return fmt::format("{}{}", is_negative ? "-" : "", digits);
+}
+
 inline std::string to_integer_literal(
     const std::string_view value, const std::string_view type)
 {
@@ -255,11 +274,11 @@ inline std::string to_integer_literal(
         static constexpr auto max_signed_literal = 9223372036854775807;
         if(*v > max_signed_literal)
         {
-            return fmt::format("{}UL", value);
+            return fmt::format("{}UL", strip_leading_zeros(value));
         }
     }
 
-    return std::string{value};
+    return strip_leading_zeros(value);
 }
 
 inline std::string get_compiled_header_top_comment()
@@ -373,6 +392,13 @@ inline std::string numeric_literal_to_value(
         else if(value == "-INF")
         {
             return fmt::format("-::std::numeric_limits<{}>::infinity()", type);
+        }
+
+        if(value.find_first_of(".eE") == std::string_view::npos)
+        {
+            // an integer literal would have to convert exactly (narrowing) and
+            // a leading zero would make it octal
+            return fmt::format("{}.0", value);
         }
 
         return std::string{value};
